@@ -58,7 +58,7 @@ def make_case(rng, nfun, nver):
         lates.append(rng.choice(LATES))
     texts = [gen_module(random.Random(seedm), nfun, l) for l in lates]
     # all versions share the prefix up to the definition of `late`
-    m1 = "import m0\n\npub fn user() {\n  let v = m0.early()\n  let w = m0.uses()\n  #(v, w)\n}\n"
+    m1 = "import m0.{early2}\n\npub fn user() {\n  let v = m0.early()\n  let w = m0.uses()\n  #(v, w)\n}\n\npub fn user2() {\n  early2(2)\n}\n"
     files = [("/w/p/src/m0.gleam", texts[0]), ("/w/p/src/m1.gleam", m1), ("/w/p/gleam.toml", 'name = "p"\n')]
     # queries at positions inside the shared prefix and in the unchanged second file
     t0 = texts[0]
@@ -71,7 +71,8 @@ def make_case(rng, nfun, nver):
            f"hover,0,{off(t0, 'let y = late()', 4)}", f"refs,0,{off(t0, 'pub fn early()', 7)}",
            f"goto,0,{off(t0, '  late()', 2)}", f"hl,0,{off(t0, 'pub fn early()', 7)}",
            f"hover,1,{off(m1, 'let v =', 4)}", f"hover,1,{off(m1, 'let w =', 4)}", f"hover,1,{off(m1, 'pub fn user', 7)}",
-           f"goto,1,{off(m1, 'm0.early', 3)}", f"complete,1,{off(m1, 'm0.early', 3)},-"]
+           f"goto,1,{off(m1, 'm0.early()', 3)}", f"complete,1,{off(m1, 'm0.early()', 3)},-",
+           f"hover,1,{off(m1, 'pub fn user2', 7)}", f"goto,1,{off(m1, '  early2(2)', 2)}"]
     for _ in range(6):
         i = rng.randrange(nfun)
         qs.append(f"hover,0,{off(t0, f'pub fn f{i}(', 7)}")
